@@ -18,6 +18,12 @@ CHECKS = {
  "C06": dict(engine="E2", technique="exhaustive boundary enumeration of limits x sizes x read sizes + explicit-state token BFS under tiny limits on the real parser, against the reference verdict and a consumption bound",
    text="Every case of the boundary sweeps (head length vs header limit at -1/0/+1, declared and chunked body sizes around the body limit, unterminated lines past tiny limits, numbers of up to 10^5 digits, odd targets) x read sizes {1,7,8192}, and every token sequence up to the stated depth under limits (header 24, body 8), runs on the real server: refused messages never reach the application, exactly one well-formed 400/413/431/501 is sent and the socket closed, no exception escapes an event handler, nothing hangs, and consumption stops within one read of crossing the limit.",
    note="lookahead 0; one fixed schedule; a 20 s watchdog defines 'hang'", ref="DESIGN.md §4 C06"),
+ "C08": dict(engine="E5", technique="exhaustive enumeration of all strings up to length n over a hostile alphabet x place x path on the real server, response head checked line by line",
+   text="Every string up to the stated length over {a : SP CR LF NUL VT \\x85 e-acute euro NBSP} in the status, a header name and a header value (plus non-str objects and every letter-case variant of the hop-by-hop names) on six paths (first start_response, exc_info re-call, list mutated after the call, write(), file_wrapper, failure after start_response) is executed; the head must be the status line + exactly the application's fields + server fields with CR/LF only as terminators, or a 500 made of server strings only; CR/LF, non-strings and hop-by-hop names must take the 500 branch.",
+   note="HTTP/1.1 GET on a fresh connection; default ident", ref="DESIGN.md §4 C08"),
+ "C09": dict(engine="E5", technique="exhaustive enumeration of failure points x exception classes x configurations x disconnect points over the response program language on the real server",
+   text="Every program of the response language with an exception injected at every step (call, missing start_response, after start_response, each write(), each iteration step, close()) x six exception classes (incl. BaseException subclasses and OSError subclasses) x expose_tracebacks x log_socket_errors, and a client disconnect before every iteration step, is executed: one complete 500 + close before any output, close without further bytes afterwards, no traceback without expose_tracebacks, iterable close() exactly once, handed-over files closed once, connection never wedged, the server still serves a new connection.",
+   note="one fixed schedule; the synchronous dispatcher plays the worker loop (same catch-all)", ref="DESIGN.md §4 C09"),
  "C10": dict(engine="E4", technique="language comparison on automata: DFA derived from the compiled patterns + call-site wrapper, exhaustive BFS of the product with the RFC grammar DFA; model bound to the code by exhaustive conformance runs against the real call sites",
    text="For each lexical gate the accepted language (as a DFA derived from the pattern source and the call-site wrapper, conformance-checked against the real parse_header / ChunkedReceiver / crack_first_line on all strings up to length n over byte-class representatives and on every byte at every seed position) is compared with the RFC grammar DFA by exhaustive search of the product automaton: equality is decided for strings of every length; numeric conversion is exercised at 1..25, 4299..4301, 5000, 10^4, 10^5 digits.",
    note="regularity; byte-class abstraction (bytes not separated by any set of model or grammar are interchangeable); wrapper models are hand-written but conformance-checked", ref="DESIGN.md §4 C10, §2 E4"),
